@@ -281,6 +281,21 @@ def run(chk, tier):
             if not bad:
                 nread += p["nR"]
     chk.count("X-INIT", nread, ["crypt-grid"])
+    # methods the crypt grid leaves out (gost-yescrypt): the same obligation on the composition cells (exact-length settings)
+    from .. import compose_grid as CG
+    cg = CG.run(tier)
+    ncomp = 0
+    for cid, c in sorted(cg["res"].items()):
+        if cg["meta"][cid]["row"]["prefix"] not in K.UNCOVERED:
+            continue
+        for p in c["paths"]:
+            bad = [a for a in p["alarms"] if a["kind"] in ("UNINIT", "AMBIENT")]
+            for a in bad[:2]:
+                chk.fail("X-INIT" if a["kind"] == "UNINIT" else "X-AMBIENT", "%s@%s:%d" % (cg["meta"][cid]["method"], a["fn"], a["line"]), "%s line %d: %s [crypt_rn with a generated %s setting]" % (a["fn"], a["line"], a["msg"], cg["meta"][cid]["method"]),
+                         "%s:%d" % (a["fn"], a["line"]), {"cell": cid})
+            if not bad:
+                ncomp += p["nR"]
+    chk.count("X-INIT", ncomp, ["composition-grid"])
     chk.rule("X-RESULT-FRESH", "the returned string, terminator included, is written by this call (a result that runs on into bytes the object held before depends on the call history)")
     nfresh = 0
     for cid, c in sorted(g["res"].items()):
